@@ -1,0 +1,81 @@
+//go:build verif
+
+package tengo
+
+import "sync/atomic"
+
+// Verification hooks (build tag "verif"). None of them changes behaviour
+// unless a harness installs a callback.
+const verifOn = true
+
+var (
+	verifStep     func(v *VM)
+	verifRunStart func(v *VM)
+	verifRunEnd   func(v *VM)
+	verifGate     func(site string)
+	verifNoDCE    bool
+)
+
+// VerifSetStep installs the per-instruction probe (called right after the
+// instruction pointer was advanced to the opcode about to be dispatched).
+func VerifSetStep(f func(v *VM)) { verifStep = f }
+
+// VerifSetRun installs the probes called by VM.Run before and after run().
+func VerifSetRun(start, end func(v *VM)) { verifRunStart, verifRunEnd = start, end }
+
+// VerifSetGate installs the event/gate callback of Compiled.RunContext.
+func VerifSetGate(f func(site string)) { verifGate = f }
+
+// VerifSetNoDCE makes optimizeFunc keep every instruction (it still appends
+// the final return), so that the same compiler emits the unoptimized twin.
+func VerifSetNoDCE(b bool) { verifNoDCE = b }
+
+// VerifVMState is the projection of the VM state used by the trace specs.
+type VerifVMState struct {
+	Fn      *CompiledFunction
+	IP      int
+	Op      byte
+	SP      int
+	BP      int
+	FI      int
+	Allocs  int64
+	Abort   int64
+	NumInst int
+	Err     error
+}
+
+// VerifState returns the current projection of the VM state.
+func (v *VM) VerifState() VerifVMState {
+	s := VerifVMState{
+		Fn:      v.curFrame.fn,
+		IP:      v.ip,
+		SP:      v.sp,
+		BP:      v.curFrame.basePointer,
+		FI:      v.framesIndex,
+		Allocs:  v.allocs,
+		Abort:   atomic.LoadInt64(&v.aborting),
+		NumInst: len(v.curInsts),
+		Err:     v.err,
+	}
+	if v.ip >= 0 && v.ip < len(v.curInsts) {
+		s.Op = v.curInsts[v.ip]
+	}
+	return s
+}
+
+// VerifTop returns the i-th object from the top of the operand stack (0 = top)
+// or nil when there is none.
+func (v *VM) VerifTop(i int) Object {
+	if v.sp-1-i < 0 || v.sp-1-i >= StackSize {
+		return nil
+	}
+	return v.stack[v.sp-1-i]
+}
+
+// VerifBytecode exposes the bytecode of a compiled script.
+func (c *Compiled) VerifBytecode() *Bytecode { return c.bytecode }
+
+// VerifGlobals exposes the globals slice and index of a compiled script.
+func (c *Compiled) VerifGlobals() ([]Object, map[string]int) {
+	return c.globals, c.globalIndexes
+}
